@@ -134,6 +134,9 @@ func funcParams(op *refnum.Op, src []byte) []byte {
 			fp = append(fp, t)
 		}
 	}
+	if hasSel(op) {
+		fp = append(fp, wasmenc.I32, wasmenc.I32)
+	}
 	return fp
 }
 
@@ -145,6 +148,43 @@ type instance struct {
 	Imm   []byte
 	Const refnum.V
 	Deco  int
+	Ctx   int // consumer context of an i32 result, see ctxNames
+}
+
+// Consumer contexts (instructions with an i32 result): instead of being returned, the result
+// is consumed directly (single use, same block) by a control or select instruction, so that
+// a back end may fuse the instruction with its consumer (compare-and-branch, TEST/CMP forms).
+// The function then returns selA or selB; with r the specified result:
+//
+//	1 br_if     block: i32.const selA; r; br_if 0; drop; i32.const selB     -> r != 0 ? selA : selB
+//	2 if        r; if selA else selB                                        -> r != 0 ? selA : selB
+//	3 select    x; y; r; select   (x, y are parameters holding selA, selB)  -> r != 0 ? selA : selB
+//	4 eqz_br_if like 1 with i32.eqz between r and br_if                     -> r == 0 ? selA : selB
+//	5 eqz_if    like 2 with i32.eqz between r and if                        -> r == 0 ? selA : selB
+var ctxNames = []string{"", "br_if", "if", "select", "eqz_br_if", "eqz_if"}
+
+const (
+	selA = 0x5a5a0001
+	selB = 0x2b2b0002
+)
+
+// hasSel: functions of these instructions take two extra i32 parameters (selA, selB).
+func hasSel(op *refnum.Op) bool { return op.Result.T == refnum.I32 }
+
+// expect is the specified outcome of function f on the operands.
+func expect(f fn, args []refnum.V) refnum.Res {
+	want := f.op.Eval(args, f.in.Imm)
+	if f.in.Ctx != 0 && want.Trap == "" && hasSel(f.op) {
+		cond := uint32(want.V[0]) != 0
+		if f.in.Ctx >= 4 {
+			cond = !cond
+		}
+		want.V = refnum.V{selB, 0}
+		if cond {
+			want.V[0] = selA
+		}
+	}
+	return want
 }
 
 // fn is one function of a generated module.
@@ -341,6 +381,16 @@ func emitFunc(f fn, k int, small bool) (fp, fr, locals, body []byte) {
 	if f.in.Deco&1 != 0 {
 		poolNoise(b, scratch, uint64(k)*0x0101010101010101)
 	}
+	ctx := 0
+	if hasSel(op) {
+		ctx = f.in.Ctx
+	}
+	switch ctx {
+	case 1, 4:
+		b.Block(wasmenc.I32).I32Const(selA)
+	case 3:
+		b.LocalGet(param).LocalGet(param + 1) // the two extra parameters
+	}
 	for j, p := range op.Params {
 		switch src[j] {
 		case 'c':
@@ -368,6 +418,18 @@ func emitFunc(f fn, k int, small bool) (fp, fr, locals, body []byte) {
 		}
 	}
 	b.Append(op.Enc).Raw(f.in.Imm...)
+	switch ctx {
+	case 1:
+		b.BrIf(0).Drop().I32Const(selB).End()
+	case 4:
+		b.Raw(wasmenc.OpI32Eqz).BrIf(0).Drop().I32Const(selB).End()
+	case 2:
+		b.If(wasmenc.I32).I32Const(selA).Else().I32Const(selB).End()
+	case 5:
+		b.Raw(wasmenc.OpI32Eqz).If(wasmenc.I32).I32Const(selA).Else().I32Const(selB).End()
+	case 3:
+		b.Select()
+	}
 	var rt byte = byte(op.Result.T)
 	res := newLocal(rt)
 	flags := newLocal(wasmenc.I32)
@@ -472,6 +534,9 @@ func buildModule(fns []fn, small bool) []byte {
 				b.LocalGet(3).Mem(wasmenc.OpI32Load, 2, uint32(slotBytes*j))
 			}
 		}
+	}
+	if hasSel(op) {
+		b.I32Const(selA).I32Const(selB)
 	}
 	b.LocalGet(0).CallIndirect(ft, 0)
 	for r := len(fr) - 1; r >= 0; r-- {
@@ -596,6 +661,9 @@ func describeFns(fns []fn) string {
 		if f.in.Deco != 0 {
 			fmt.Fprintf(&sb, "/deco%d", f.in.Deco)
 		}
+		if f.in.Ctx != 0 && hasSel(f.op) {
+			fmt.Fprintf(&sb, "/%s", ctxNames[f.in.Ctx])
+		}
 	}
 	return sb.String()
 }
@@ -661,6 +729,9 @@ func (l *loaded) direct(k int, args []refnum.V) observed {
 			flat = append(flat, x)
 		}
 	}
+	if hasSel(f.op) {
+		flat = append(flat, selA, selB)
+	}
 	res, out := wz.SafeCall(ctx, l.fs[k], flat...)
 	switch out.Kind {
 	case wz.KOK:
@@ -720,6 +791,7 @@ type FnSpec struct {
 	Imm     string `json:"imm,omitempty"`
 	Const   string `json:"const,omitempty"`
 	Deco    int    `json:"deco,omitempty"`
+	Ctx     int    `json:"ctx,omitempty"` // consumer context 1..5 (br_if, if, select, eqz_br_if, eqz_if)
 }
 
 // Case is the replay form of one evaluation.
@@ -729,7 +801,8 @@ type Case struct {
 	Engine   string   `json:"engine"`
 	Imm      string   `json:"imm,omitempty"` // hex of the lane / shuffle immediate
 	Deco     int      `json:"deco,omitempty"`
-	Args     []string `json:"args"` // one "lo" or "lo:hi" hex per operand (const operand included)
+	Ctx      int      `json:"ctx,omitempty"` // consumer context 1..5 (br_if, if, select, eqz_br_if, eqz_if): expected/got are the selected constants
+	Args     []string `json:"args"`          // one "lo" or "lo:hi" hex per operand (const operand included)
 	Expected string   `json:"expected"`
 	Got      string   `json:"got"`
 	// ViaLoop: the wrong result was only seen through the in-guest loop ("run": the generic
@@ -770,7 +843,7 @@ func parseV(s string) (refnum.V, error) {
 }
 
 func specOf(f fn) FnSpec {
-	s := FnSpec{Op: f.op.Name, Variant: f.variant, Imm: hex.EncodeToString(f.in.Imm), Deco: f.in.Deco}
+	s := FnSpec{Op: f.op.Name, Variant: f.variant, Imm: hex.EncodeToString(f.in.Imm), Deco: f.in.Deco, Ctx: f.in.Ctx}
 	if ci := constIdx(f.variant); ci >= 0 && ci < len(f.op.Params) {
 		s.Const = fmtV(f.op.Params[ci], f.in.Const)
 	}
@@ -786,7 +859,10 @@ func fnOf(s FnSpec) (fn, error) {
 	if err != nil {
 		return fn{}, err
 	}
-	f := fn{op: op, variant: s.Variant, in: instance{Imm: imm, Deco: s.Deco}}
+	if s.Ctx < 0 || s.Ctx >= len(ctxNames) {
+		return fn{}, fmt.Errorf("ctx")
+	}
+	f := fn{op: op, variant: s.Variant, in: instance{Imm: imm, Deco: s.Deco, Ctx: s.Ctx}}
 	if s.Const != "" {
 		if f.in.Const, err = parseV(s.Const); err != nil {
 			return fn{}, err
@@ -805,7 +881,7 @@ func moduleCase(fns []fn, engine string) Case {
 
 func mkCase(f fn, engine string, args []refnum.V, want refnum.Res, got observed) Case {
 	op := f.op
-	c := Case{Op: op.Name, Variant: f.variant, Engine: engine, Imm: hex.EncodeToString(f.in.Imm), Deco: f.in.Deco,
+	c := Case{Op: op.Name, Variant: f.variant, Engine: engine, Imm: hex.EncodeToString(f.in.Imm), Deco: f.in.Deco, Ctx: f.in.Ctx,
 		Expected: op.Describe(want), Got: got.String(op)}
 	for j, a := range args {
 		c.Args = append(c.Args, fmtV(op.Params[j], a))
@@ -841,7 +917,7 @@ func execCase(c Case) (ok bool, msg string, err error) {
 			return false, "", fmt.Errorf("index")
 		}
 	} else {
-		f, err := fnOf(FnSpec{Op: c.Op, Variant: c.Variant, Imm: c.Imm, Deco: c.Deco})
+		f, err := fnOf(FnSpec{Op: c.Op, Variant: c.Variant, Imm: c.Imm, Deco: c.Deco, Ctx: c.Ctx})
 		if err != nil {
 			return false, "", err
 		}
@@ -875,7 +951,7 @@ func execCase(c Case) (ok bool, msg string, err error) {
 		}
 	}
 	imm := f.in.Imm
-	want := op.Eval(args, imm)
+	want := expect(f, args)
 	var got observed
 	switch c.ViaLoop {
 	case "run":
@@ -926,8 +1002,16 @@ func execCase(c Case) (ok bool, msg string, err error) {
 	if len(fns) > 1 {
 		where = fmt.Sprintf(" as function %d of the module (%s)", idx, describeFns(fns))
 	}
-	return false, fmt.Sprintf("%s [%s, %s] imm=%x args=%v%s: specified %s, wazero returned %s", op.Name, f.variant, c.Engine, imm, c.Args, where,
+	return false, fmt.Sprintf("%s [%s, %s]%s imm=%x args=%v%s: specified %s, wazero returned %s", op.Name, f.variant, c.Engine, ctxNote(f), imm, c.Args, where,
 		op.Describe(want), got.String(op)), nil
+}
+
+// ctxNote describes the consumer context for messages.
+func ctxNote(f fn) string {
+	if f.in.Ctx == 0 || !hasSel(f.op) {
+		return ""
+	}
+	return fmt.Sprintf(" result consumed directly by %s (r!=0 selects %#x, else %#x; eqz forms the other way round)", ctxNames[f.in.Ctx], selA, selB)
 }
 
 // minimise attaches the module context to a failing case only when the function alone does
